@@ -208,7 +208,8 @@ fn run_rt(ctx: &Ctx, idx: u64, kind: &'static str, src: &'static str, k: u64, o:
                     let nrefs = *rng.pick(&[0usize, 1, 2, 5]);
                     let fixed = rng.bool();
                     // half of the indexes have an loffset entry for every bin, the others for none / some / only non-leaf / only leaf bins
-                    let entries = *rng.pick(&[rt::Entries::All, rt::Entries::All, rt::Entries::All, rt::Entries::All, rt::Entries::None, rt::Entries::Some, rt::Entries::OnlyAncestors, rt::Entries::OnlyLeaves]);
+                    let entries =
+                        *rng.pick(&[rt::Entries::All, rt::Entries::All, rt::Entries::All, rt::Entries::All, rt::Entries::None, rt::Entries::Some, rt::Entries::OnlyAncestors, rt::Entries::OnlyLeaves]);
                     let h = if with_header { Some(rt::arb_header(&mut rng, nrefs, false)) } else { None };
                     (rt::arb_binned(&mut rng, ms, d, h, nrefs, fixed, entries), format!("arb|refs={nrefs}|{ms},{d}|h={with_header}|fixed={fixed}|entries={entries:?}"))
                 };
@@ -457,10 +458,21 @@ fn run_witness(name: &str, o: &mut CaseOut) {
         // (positions 1..=128), leaves 9 (1..=16), 10 (17..=32), 17 (129..=144, child of 2). Chunks are laid out so that every
         // loffset value separates two chunks, i.e. a changed lower bound changes an answer.
         "csi-bins-without-loffset-entries" => {
-            use csi::binning_index::index::{ReferenceSequence, reference_sequence::{Bin, bin::Chunk}};
+            use csi::binning_index::index::{
+                ReferenceSequence,
+                reference_sequence::{Bin, bin::Chunk},
+            };
             let chunk = |a: u64, b: u64| Chunk::new(binning::vp(a), binning::vp(b));
             let bins = || -> indexmap::IndexMap<usize, Bin> {
-                [(0usize, Bin::new(vec![chunk(10, 20)])), (1, Bin::new(vec![chunk(30, 40)])), (9, Bin::new(vec![chunk(50, 60), chunk(90, 95)])), (10, Bin::new(vec![chunk(70, 80)])), (17, Bin::new(vec![chunk(100, 110)]))].into_iter().collect()
+                [
+                    (0usize, Bin::new(vec![chunk(10, 20)])),
+                    (1, Bin::new(vec![chunk(30, 40)])),
+                    (9, Bin::new(vec![chunk(50, 60), chunk(90, 95)])),
+                    (10, Bin::new(vec![chunk(70, 80)])),
+                    (17, Bin::new(vec![chunk(100, 110)])),
+                ]
+                .into_iter()
+                .collect()
             };
             let shapes: [(&str, Vec<(usize, u64)>); 8] = [
                 ("no-entries", vec![]),
@@ -487,11 +499,21 @@ fn run_witness(name: &str, o: &mut CaseOut) {
         // BAI / tabix whose linear index is shorter than the highest window that holds a bin (or empty): min_offset is 0
         // beyond its end, before and after the round trip.
         "linear-index-shorter-than-bins" => {
-            use csi::binning_index::index::{ReferenceSequence, reference_sequence::{Bin, bin::Chunk}};
+            use csi::binning_index::index::{
+                ReferenceSequence,
+                reference_sequence::{Bin, bin::Chunk},
+            };
             let chunk = |a: u64, b: u64| Chunk::new(binning::vp(a), binning::vp(b));
             for (label, lin) in [("empty", vec![]), ("one-window", vec![15u64]), ("three-windows", vec![0, 35, 75]), ("zeros", vec![0, 0, 0, 0])] {
-                let bins: indexmap::IndexMap<usize, Bin> =
-                    [(0usize, Bin::new(vec![chunk(10, 20)])), (4681, Bin::new(vec![chunk(30, 40)])), (4683, Bin::new(vec![chunk(50, 60)])), (4700, Bin::new(vec![chunk(70, 80)])), (37448, Bin::new(vec![chunk(90, 100)]))].into_iter().collect();
+                let bins: indexmap::IndexMap<usize, Bin> = [
+                    (0usize, Bin::new(vec![chunk(10, 20)])),
+                    (4681, Bin::new(vec![chunk(30, 40)])),
+                    (4683, Bin::new(vec![chunk(50, 60)])),
+                    (4700, Bin::new(vec![chunk(70, 80)])),
+                    (37448, Bin::new(vec![chunk(90, 100)])),
+                ]
+                .into_iter()
+                .collect();
                 let lin: LinearIndex = lin.into_iter().map(binning::vp).collect();
                 let rs = ReferenceSequence::new(bins, lin, None);
                 let bai: bam::bai::Index = csi::binning_index::Index::builder().set_reference_sequences(vec![rs.clone()]).build();
